@@ -5,7 +5,8 @@
  * ops:
  *   load <path>              archive bytes from a file            -> "ok <len>"
  *   hex <hexbytes>           archive bytes inline                 -> "ok <len>"
- *   run blk=<b> src=<s> cons=<c> trunc=<n|-> fault=<kind@idx|->   -> one record line
+ *   make fmt=<f> filt=<f> seed=<s> n=<k> [big=1] [opt=<options>]  archive written by libarchive -> "made <len> <st>"
+ *   run blk=<b> src=<s> cons=<c> trunc=<n|e<k>|-> fault=<kind@idx|->   -> one record line
  *
  * blk:  w (whole) | <N> constant | r<seed> random small sizes | c<k> two blocks cut at k
  * src:  cb (read callback only) | cbs (+skip) | cbk (+skip+seek) | mem:<readsize> (open_memory2)
@@ -148,7 +149,9 @@ static void do_run(char **w, int n)
 	const char *blk = kv(w, n, "blk"), *src = kv(w, n, "src"), *cons = kv(w, n, "cons");
 	const char *trunc = kv(w, n, "trunc"), *fault = kv(w, n, "fault");
 	size_t len = arclen;
-	if (strcmp(trunc, "-") != 0) { size_t t = (size_t)strtoull(trunc, NULL, 10); if (t < len) len = t; }
+	if (trunc[0] == 'e') {	/* e<K>: cut K bytes before the end (trailers and central directories live there) */
+		size_t k = (size_t)strtoull(trunc + 1, NULL, 10); len = k < len ? len - k : 0;
+	} else if (strcmp(trunc, "-") != 0) { size_t t = (size_t)strtoull(trunc, NULL, 10); if (t < len) len = t; }
 	/* exact-size copy so that any over-read of the archive buffer is an ASan report */
 	unsigned char *buf = malloc(len ? len : 1); memcpy(buf, arc, len);
 	{	/* poke=off:val,off:val — damage single bytes of this run's copy */
@@ -331,6 +334,10 @@ static void do_make(char **w, int n)
 	archive_write_set_bytes_in_last_block(a, 1);
 	if (strcmp(fmt, "raw") == 0 && strcmp(filt, "bzip2") == 0)
 		archive_write_set_filter_option(a, "bzip2", "compression-level", "1");   /* several 100k blocks */
+	{	/* opt=<option string>: writer/filter options ("lz4:!stream-checksum,lz4:block-size=4", "7zip:compression=store") */
+		const char *opt = kv(w, n, "opt");
+		if (opt[0] && strcmp(opt, "-") != 0 && archive_write_set_options(a, opt) < ARCHIVE_WARN) { printf("bad-opt"); archive_write_free(a); return; }
+	}
 	r = archive_write_open(a, &sk, NULL, sink_write, NULL);
 	static const long sizes[] = {0, 1, 10, 511, 512, 513, 1000, 4095, 5000, 10240, 70001, 200001};
 	int tarlike = strstr(fmt, "tar") || strstr(fmt, "pax") || strstr(fmt, "ustar") || strstr(fmt, "cpio") || strstr(fmt, "newc") || strstr(fmt, "odc");
